@@ -160,11 +160,20 @@ def handleError (c : Ctl) (errs : List String) : Ctl × Bool :=
 
 def removeAll (c : Ctl) (errs : List String) : Ctl := errs.foldl (fun c a => c.removeReplica a CkEnv.none) c
 
+/-- the answers one address of a `Start` request gets -/
+structure StartEnv where
+  addr     : String
+  createOk : Bool
+  size     : Nat
+  setWoOk  : Bool
+  clone    : String          -- the status the polling loop ended on ("error", "callfail", other)
+  setRwOk  : Bool
+  rev      : Option Nat      -- `GetRevisionCounter` after the loop (none = the call failed)
+
 /-- the requests -/
 inductive CtlOp where
   | register (r : Reg) (signalOk alive : Bool) (elected : String)
-  | start (addr : String) (createOk : Bool) (size : Nat) (setWoOk : Bool) (clone : String)
-          (setRwOk : Bool) (rev : Option Nat) (ck : CkEnv)
+  | start (es : List StartEnv) (ck : CkEnv)
   | add (addr : String) (takeover : Option Bool) (createOk : Bool) (snapFails : List String)
         (newSnapOk setWoOk : Bool) (ck : CkEnv)
   | addPre (addr : String) (takeover : Option Bool)
@@ -271,24 +280,6 @@ def startReset (c : Ctl) : Ctl := { c.reset with size := maxInt64 }
 /-- a backend id is taken by `factory.Create`; `Start` also adopts the replica's size -/
 def reserve (c : Ctl) (size : Nat) : Ctl := { c with nextId := c.nextId + 1, size := size }
 
-/-- `Start` with one address -/
-def stepStart (c : Ctl) (addr : String) (createOk : Bool) (size : Nat) (setWoOk : Bool) (clone : String)
-    (setRwOk : Bool) (rev : Option Nat) (ck : CkEnv) : Ctl × CtlOut :=
-  if c.replicas.length > 0 then (c, .ok) else
-  if addr ≠ full c.maxRev then (c, .refused) else
-  if !createOk then (c.startReset.dropLeader, .failed) else
-  let id := c.nextId
-  let c1 := c.startReset.reserve size
-  if !setWoOk then ((c1.call id "SetReplicaMode").dropLeader, .failed) else
-  let c2 := (c1.call id "SetReplicaMode").attach addr id
-  if clone = "error" ∨ clone = "callfail" then ((c2.removeReplica addr CkEnv.none).startFront, .failed) else
-  let c3 := c2.call id "SetReplicaMode"
-  if !setRwOk then ((c3.removeReplica addr CkEnv.none).startFront, .failed) else
-  let c4 := c3.setMode addr .rw
-  match rev with
-  | none => (c4.startFront, .failed)
-  | some _ => (((c4.updateVolStatus).updateCheckpoint ck).startFront, .ok)
-
 /-- `canAdd`: `none` = refused.  At most one WO replica, unless the newcomer has seen more writes, in
     which case the WO replica is removed (`takeover` is the answer of `hasGreaterRevisionCount`). -/
 def canAdd (c : Ctl) (addr : String) (takeover : Option Bool) : Option Ctl :=
@@ -299,6 +290,58 @@ def canAdd (c : Ctl) (addr : String) (takeover : Option Bool) : Option Ctl :=
 
 /-- `factory.Create` returned a backend: it gets the next id -/
 def reserveId (c : Ctl) : Ctl := { c with nextId := c.nextId + 1 }
+
+/-- the first replica of a `Start` decides the volume size -/
+def adoptSize (c : Ctl) (sz : Nat) : Ctl := if c.size = maxInt64 then { c with size := sz } else c
+
+/-- `addReplicaDuringStartNoLock` for one address; `false` = it returned an error (and `Start`
+    returns it).  The first replica decides the volume size; a later one of another size is refused
+    (its backend is neither attached nor closed, as in the code).  `addReplicaNoLock` repeats
+    `canAdd`: an address that is already attached is refused (no WO replica can exist at this
+    point: every earlier address was made RW or removed). -/
+def startOne (c : Ctl) (e : StartEnv) : Ctl × Bool :=
+  if !e.createOk then (c.dropLeader, false) else
+  let id := c.nextId
+  let c1 := c.reserveId.adoptSize e.size
+  if c1.size ≠ e.size then (c1.dropLeader, false) else
+  match c1.canAdd e.addr none with
+  | none => (c1.dropLeader, false)
+  | some c1 =>
+  let c2 := c1.call id "SetReplicaMode"
+  if !e.setWoOk then (c2.dropLeader, false) else
+  let c3 := c2.attach e.addr id
+  if e.clone = "error" ∨ e.clone = "callfail" then (c3.removeReplica e.addr CkEnv.none, false) else
+  let c4 := c3.call id "SetReplicaMode"
+  if !e.setRwOk then (c4.removeReplica e.addr CkEnv.none, false) else
+  (c4.setMode e.addr .rw, true)
+
+/-- the loop of `Start` over the addresses: stops at the first error -/
+def startLoop (c : Ctl) : List StartEnv → Ctl × Bool
+  | [] => (c, true)
+  | e :: es => if (c.startOne e).2 then startLoop (c.startOne e).1 es else ((c.startOne e).1, false)
+
+/-- the highest revision counter reported (`expectedRevision`) -/
+def expectedRev (es : List StartEnv) : Nat := es.foldl (fun m e => max m (e.rev.getD 0)) 0
+
+/-- the replicas `Start` marks ERR: those whose counter is not the highest -/
+def staleAddrs (es : List StartEnv) : List String :=
+  (es.filter fun e => e.rev.getD 0 ≠ expectedRev es).map (·.addr)
+
+/-- `Start`.  More addresses than the replication factor are refused (fix 8cc7cbc); the first address
+    must be the elected replica; every address is attached and made RW in turn; then the revision
+    counters are read and every replica below the highest is marked ERR (C09). -/
+def stepStart (c : Ctl) (es : List StartEnv) (ck : CkEnv) : Ctl × CtlOut :=
+  match es with
+  | [] => (c, .ok)
+  | e0 :: _ =>
+  if c.replicas.length > 0 then (c, .ok) else
+  if e0.addr ≠ full c.maxRev then (c, .refused) else
+  if es.length > c.rf then (c, .refused) else
+  if (c.startReset.startLoop es).2 = false then ((c.startReset.startLoop es).1.startFront, .failed) else
+  let c1 := (c.startReset.startLoop es).1
+  if es.any (fun e => e.rev.isNone) then (c1.startFront, .failed) else
+  let c2 := (staleAddrs es).foldl (fun c a => c.setMode a .err) c1
+  (((c2.updateVolStatus).updateCheckpoint ck).startFront, .ok)
 
 /-- `addReplicaNoLock` after its `canAdd`: the automatic snapshot everywhere, WO, attach -/
 def attachNew (c : Ctl) (addr : String) (id : Nat) (snapFails : List String)
@@ -462,7 +505,7 @@ def step (c0 : Ctl) (op : CtlOp) : Ctl × CtlOut :=
   let c := c0.clearLog
   match op with
   | .register r signalOk alive elected => stepRegister c r signalOk alive elected
-  | .start addr createOk size setWoOk clone setRwOk rev ck => stepStart c addr createOk size setWoOk clone setRwOk rev ck
+  | .start es ck => stepStart c es ck
   | .add addr takeover createOk snapFails newSnapOk setWoOk ck => stepAdd c addr takeover createOk snapFails newSnapOk setWoOk ck
   | .addPre addr takeover => stepAddPre c addr takeover
   | .addPost addr takeover createOk snapFails newSnapOk setWoOk ck => stepAddPost c addr takeover createOk snapFails newSnapOk setWoOk ck
